@@ -37,12 +37,12 @@ CLAIMS = {
             "constant-true WBAssertThrow, string dispatch ends in a release-active rejection and agrees with the schema; G3: JSON "
             "parse, is-object and schema gates dominate every normal return of Parameters::initialize, version check first; A5; SCHEMA "
             "(required/closed/keys/writers: no schema path stored twice, points declare minItems=maxItems=dim); JSON.order (no member "
-            "picked by position)",
+            "picked by position); COPY.members (hand-written copy constructors copy member m from other.m: nested schema types are clones)",
             "§3.7, §3.4, §4 C12"),
     "C13": ("loop-shape and recursion-table analysis + sign analysis of denominators over CFG control dependence",
             "LOOP: every loop on the query path has a bounded shape, the three call-graph cycles match the frozen recursion "
             "table (kd-tree shrinking ranges, Bezier one-shot retry, stratified tian2019 re-entry); A5: only std::exception "
-            "types are thrown; shape of guards: NaN-absorbing clamp before acos, release-active arity checks of per-section and "
+            "types are thrown; shape of guards: two-sided NaN-absorbing clamp before acos, the 2D wrapper's walk over the result uses the producer's widths, release-active arity checks of per-section and "
             "input-indexed tables, sibling models agree on their guards; DIV.guard: in the model functions no floating-point division has a "
             "denominator that vanishes at depth zero / at the planet's centre / on the ridge / on the slab surface or trench line / where a laterally "
             "varying bound reaches zero or two of them coincide, unless a controlling condition excludes it (model functions and the gravity / "
@@ -128,7 +128,7 @@ CLAIMS.update({
             "§3.5, §3.6, §3.9, §4 C06"),
     "C07": ("dependence-set analysis of culling bounds + structural coverage rules",
             "DEP: every depth cut-off / bounding box depends on all parameters the exact extent depends on (min depth, segment lengths "
-            "and thicknesses, coordinates, radius), the depth cut-off is >= min depth + L + T with derived fields resolved through parse_entries, spherical buffer factor > 1, both longitude buffers of the spherical box dominate b/cos(lat) at both "
+            "and thicknesses, coordinates, radius), the depth cut-off is >= min depth + L + T with derived fields resolved through parse_entries, the Cartesian box buffer is >= L + T, spherical buffer factor > 1, both longitude buffers of the spherical box dominate b/cos(lat) at both "
             "trench ends (DEP.bbox-lon), max-accumulators cover all sections x segments x both "
             "components, depth-surface pairing (min<-minimum, max<-maximum, same side everywhere), full-scan fallback before "
             "Surface::local_value throws (every triangle, point and alias; skip flags set and read through the same index member), who-may-call of alias-unaware implementations. Numeric sufficiency of the buffer near the poles "
@@ -171,7 +171,7 @@ CLAIMS.update({
             "form); (E) half space: convex combination with weight erfc(u>=0), dT/d(depth) and dT/d(age) of the documented sign. Bounds "
             "and monotonicity of the 100-term series and the slab plate model are not decided; mass-conserving slab: the two sides of the profile "
             "(Gaussian above the coldest surface between T_min and the incoming value, entered only for T_ >= T_min; conductive side from T_min to the ambient value, "
-            "both reference models) - its minimum-temperature construction is not decided; plus the necessary "
+            "both reference models) - used only under `minimum < ambient` of its own end members - its minimum-temperature construction is not decided; plus the necessary "
             "conditions that features hand the local depth range to their models, that a model uses one value per physical parameter "
             "(PARAM.source) and that nothing is cached between queries",
             "§4 C20, §10.8"),
